@@ -32,6 +32,19 @@ ExecOutcome(o, i, n, names, uva, uvk, c) ==
   ELSE LET sh == InnerShape(o, c, n, names, uva, uvk) IN
        IF sh.dup \/ ~Accepts(i, [np |-> sh.np, kw |-> sh.kw]) THEN "inner" ELSE "ok"
 
+(* Decorator stacks (C13).  A layer is [o : parameter list of the wrapper function WITHOUT its first parameter (the wrapped   *)
+(* callable), n, names, uva, uvk : how its body calls the wrapped callable]; the last element of the chain is the base       *)
+(* function's parameter list.  ChainOutcome says at which depth CPython raises a binding TypeError (0 = none).               *)
+RECURSIVE ChainOutcome(_, _, _, _)
+ChainOutcome(layers, base, c, depth) ==
+  IF layers = <<>> THEN (IF Accepts(base, c) THEN 0 ELSE depth)
+  ELSE LET L == Head(layers) IN
+       IF ~Accepts(L.o, c) THEN depth
+       ELSE LET sh == InnerShape(L.o, c, L.n, L.names, L.uva, L.uvk) IN
+            IF sh.dup THEN depth + 1
+            ELSE ChainOutcome(Tail(layers), base, [np |-> sh.np, kw |-> sh.kw], depth + 1)
+ChainOk(layers, base, c) == ChainOutcome(layers, base, c, 1) = 0
+
 (* a method: the first positional parameter is bound to the instance *)
 DropFirst(ps) == LET S == {x \in DOMAIN ps : ps[x].k \in {"po", "pok"}} IN
                  IF S = {} THEN ps
